@@ -79,16 +79,45 @@ def call_src(fname, pos, kws):
     return "dds.keep(\"/p\", %s%s)" % (fname, "".join(", " + a for a in args))
 
 
+def _redefined(shape):
+    """Another shape with the same parameters but other defaults (a later version of the same function)."""
+    alt = []
+    for d in shape:
+        if d == NODEF:
+            alt.append(d)
+        else:
+            alt.append(DEFAULTS[(DEFAULTS.index(d) + 1) % len(DEFAULTS)] if d in DEFAULTS else 0)
+    return tuple(alt)
+
+
 def job(arg):
-    """Runs in a forked child: one function shape, all its bindings and spellings."""
+    """Runs in a forked child: one function shape, all its bindings and spellings; then the function is
+    redefined with other defaults (module rewritten + reloaded) and everything is asked again."""
     shape, idx, bindings, scratch = arg
+    out1 = _one_pass(shape, idx, bindings, scratch, None)
+    alt = _redefined(shape)
+    if alt != tuple(shape):
+        bs2 = []
+        for b in bindings:
+            b = list(b)
+            # keep the bindings that hit a default hitting the *new* default
+            for i, (d0, d1) in enumerate(zip(shape, alt)):
+                if d0 != NODEF and type(b[i]) is type(d0) and b[i] == d0:
+                    b[i] = d1
+            bs2.append(tuple(b))
+        out2 = _one_pass(alt, idx, list(dict.fromkeys(bs2)), scratch, out1[3])
+        return (shape, out1[1], out1[2], (alt, out2[1], out2[2]))
+    return (shape, out1[1], out1[2], None)
+
+
+def _one_pass(shape, idx, bindings, scratch, prev_mod):
     import dds
     from dds.store import MemoryStore
     from vp.capstore import CapturingStore
 
     pkg = "c13pkg_%d" % idx
     d = os.path.join(scratch, pkg)
-    os.makedirs(d)
+    os.makedirs(d, exist_ok=True)
     fname = "f"
     src = ["import dds\n", fun_src(fname, shape), "\n"]
     calls = []
@@ -100,9 +129,15 @@ def job(arg):
             w += 1
     with open(os.path.join(d, "__init__.py"), "w") as f:
         f.write("".join(src))
-    sys.path.insert(0, scratch)
-    mod = importlib.import_module(pkg)
-    dds.accept_module(pkg)
+    if prev_mod is None:
+        sys.path.insert(0, scratch)
+        mod = importlib.import_module(pkg)
+        dds.accept_module(pkg)
+    else:
+        import linecache
+
+        linecache.checkcache()
+        mod = importlib.reload(prev_mod)
     f = getattr(mod, fname)
     sig_of = inspect.signature(f)
     out = []
@@ -124,7 +159,7 @@ def job(arg):
                 out.append((mode, repr(bound), (pos, kws), sig, None, r == expected))
             except BaseException as e:
                 out.append((mode, repr(bound), (pos, kws), None, "%s: %s" % (type(e).__name__, str(e)[:200]), False))
-    return (shape, out, "".join(src[:3]))
+    return (shape, out, "".join(src[:3]), mod)
 
 
 def _canon_bound(bound_repr):
@@ -145,7 +180,8 @@ def run(tier, seed):
     rep.rule = (
         "functions with 1..%d positional-or-keyword parameters, defaults drawn from %r (all shapes for n<=2, sampled for n>=3); "
         "bindings over %r (all for n=1, sampled otherwise); every spelling = positional prefix + each permutation of keywords, "
-        "each defaulted parameter explicit or omitted; each spelling is run as a direct dds.keep and as literals in a wrapper under dds.eval. "
+        "each defaulted parameter explicit or omitted; each spelling is run as a direct dds.keep and as literals in a wrapper under dds.eval; then the module is rewritten with other defaults for the same "
+        "function, reloaded in the same process, and everything is asked again. "
         "distinct_nontrivial = number of distinct (function shape, binding class) groups for which at least two spellings/modes were compared."
         % (nmax, DEFAULTS, VALUES)
     )
@@ -173,13 +209,18 @@ def run(tier, seed):
                 bs = list(dict.fromkeys(dflt + allb[:k]))
             jobs.append((shape, idx, bs, scratch))
         results = core.fork_map(job, jobs, timeout=600)
+    passes = []
     for jb, res in zip(jobs, results):
-        shape = jb[0]
         if isinstance(res, core.JobFailed):
-            rep.inconclusive.append("worker for shape %r: %r" % (shape, res))
+            rep.inconclusive.append("worker for shape %r: %r" % (jb[0], res))
             continue
-        _, out, src = res
+        passes.append((res[0], res[1], res[2], False))
+        if res[3] is not None:
+            passes.append((res[3][0], res[3][1], res[3][2], True))
+    for (shape, out, src, redefined) in passes:
         rep.evaluations += len(out)
+        if redefined:
+            rep.count("passes_after_redefinition")
         by_class = {}
         for (mode, bound, spell, sig, exc, value_ok) in out:
             rep.count("calls_" + mode)
@@ -216,8 +257,8 @@ def run(tier, seed):
                 rep.violate(
                     "f%s: binding %s has %d signatures, e.g. %s %r vs %s %r"
                     % (_shape_str(shape), a[1], len(sigs), a[0], _spell_str(a[2]), b[0], _spell_str(b[2])),
-                    {"shape": shape, "bound": a[1], "a": a, "b": b, "src": src},
-                    mechanism=_mech_same(shape, groups),
+                    {"shape": shape, "bound": a[1], "a": a, "b": b, "src": src, "redefined": redefined},
+                    mechanism=("after-redefinition:" if redefined else "") + str(_mech_same(shape, groups)) if (redefined or _mech_same(shape, groups)) else None,
                 )
             for s in sigs:
                 sig_to_class.setdefault(s, set()).add(ck)
@@ -232,8 +273,8 @@ def run(tier, seed):
                 ia = [it for it in by_class[cl[0]] if it[3] == s][0]
                 rep.violate(
                     "f%s: different bindings %s and %s share signature %s" % (_shape_str(shape), ia[1], ib[1], s[:12]),
-                    {"shape": shape, "a": ia, "b": ib, "src": src},
-                    mechanism=_mech_diff(shape, eval(ia[1]), eval(ib[1]), ia, ib),
+                    {"shape": shape, "a": ia, "b": ib, "src": src, "redefined": redefined},
+                    mechanism=_mech_diff(shape, eval(ia[1]), eval(ib[1]), ia, ib) if not redefined or _mech_diff(shape, eval(ia[1]), eval(ib[1]), ia, ib) == "none-sentinel-string" else "after-redefinition",
                 )
         rep.sample({"function": src.split("\n")[1], "example_spellings": [_spell_str(o[2]) for o in out[:6]]}, cap=5)
     rep.assumptions = ["positional-or-keyword parameters only (*args/**kwargs are documented as unsupported)",
